@@ -315,6 +315,13 @@ impl<T: AsRef<[u8]> + AsMut<[u8]>> Packet<T> {
         NetworkEndian::write_u16(&mut data[field::CHECKSUM], value)
     }
 
+    /// Clear the unused field (for destination unreachable and time exceeded packets).
+    #[inline]
+    pub fn clear_unused(&mut self) {
+        let data = self.buffer.as_mut();
+        NetworkEndian::write_u32(&mut data[field::UNUSED], 0)
+    }
+
     /// Set the identifier field (for echo request and reply packets).
     ///
     /// # Panics
@@ -523,6 +530,7 @@ impl<'a> Repr<'a> {
             } => {
                 packet.set_msg_type(Message::DstUnreachable);
                 packet.set_msg_code(reason.into());
+                packet.clear_unused();
 
                 let mut ip_packet = Ipv4Packet::new_unchecked(packet.data_mut());
                 header.emit(&mut ip_packet, checksum_caps);
@@ -537,6 +545,7 @@ impl<'a> Repr<'a> {
             } => {
                 packet.set_msg_type(Message::TimeExceeded);
                 packet.set_msg_code(reason.into());
+                packet.clear_unused();
 
                 let mut ip_packet = Ipv4Packet::new_unchecked(packet.data_mut());
                 header.emit(&mut ip_packet, checksum_caps);
